@@ -18,7 +18,7 @@ func init() {
 	ev.Register(&ev.Check{
 		ID:             "C06",
 		Level:          "exploration",
-		Rule:           "inputs: (i) every valid JSON text among ALL strings <= 5 (thorough 6) symbols over the 30-class alphabet; (ii) ALL JSON values with <= 4 (5) nodes over 10 scalar forms rendered with every placement of <= 2 (3) gaps from {space, tab, LF, CRLF} over all inter-token positions; (iii) all 2^8 object/array nestings of depth 8, flat containers of width 1..8, numbers ending at end of input. Oracle on the public NextLexeme stream: properly nested, terminated by io.EOF, spans inside the input, literal/key spans == reference token spans, container spans bracket to bracket, value rebuilt from events alone == reference parse; cross-scanner: schema scanner and (arrays of scalars) enum scanner via verif hooks yield the same (type, begin, end) sequence modulo new-line events. States/transitions = distinct (event-type stack) configurations of the replayed event automaton and steps between them. Non-trivial = distinct valid text with >= 2 events.",
+		Rule:           "inputs: (i) every valid JSON text among ALL strings <= 5 (thorough 6) symbols over the 30-class alphabet; (ii) ALL JSON values with <= 4 (5) nodes over 10 scalar forms rendered with every placement of <= 2 (3) gaps from {space, tab, LF, CRLF} over all inter-token positions; (iii) all 2^8 object/array nestings of depth 8, flat containers of width 1..8, numbers ending at end of input, every single-character escape and every \\uXXXX escape with each hex digit from {0,9,a,F} in strings and keys. Oracle on the public NextLexeme stream: properly nested, terminated by io.EOF, spans inside the input, literal/key spans == reference token spans, container spans bracket to bracket, value rebuilt from events alone == reference parse; cross-scanner: schema scanner and (arrays of scalars) enum scanner via verif hooks yield the same (type, begin, end) sequence modulo new-line events. States/transitions = distinct (event-type stack) configurations of the replayed event automaton and steps between them. Non-trivial = distinct valid text with >= 2 events.",
 		Run:            run,
 		Replay:         replay,
 		QuickBudget:    80 * time.Second,
@@ -489,6 +489,30 @@ func families(c *ev.Ctx) {
 		evalAndReport(c, strings.Repeat("[", w)+strings.Repeat("]", w))
 		evalAndReport(c, strings.Repeat(`{"a":`, w)+"{}"+strings.Repeat("}", w))
 		evalAndReport(c, "["+strings.Repeat("[],", w)+"{}]")
+	}
+	// string escapes: every single-character escape and every \uXXXX with each
+	// hex position drawn from {0, 9, a, F}, as value, element, key and member value
+	var escs []string
+	for _, e := range []string{`\"`, `\\`, `\/`, `\b`, `\f`, `\n`, `\r`, `\t`} {
+		escs = append(escs, e)
+	}
+	hex := []string{"0", "9", "a", "F"}
+	for _, h1 := range hex {
+		for _, h2 := range hex {
+			for _, h3 := range hex {
+				for _, h4 := range hex {
+					escs = append(escs, `\u`+h1+h2+h3+h4)
+				}
+			}
+		}
+	}
+	for _, e := range escs {
+		str := `"x` + e + `y"`
+		evalAndReport(c, str)
+		evalAndReport(c, "["+str+", "+`"`+e+`"`+"]")
+		evalAndReport(c, "{"+str+":1}")
+		evalAndReport(c, `{"k": `+str+` }`)
+		c.Inc("escape_family_texts")
 	}
 	for _, num := range []string{"0", "-0", "10", "1.5", "-1.5e-3", "1E+2", "0.0", "123456789012345678901234567890"} {
 		evalAndReport(c, num)
